@@ -8,6 +8,8 @@ AST (JSON-able, literals are raw Python values None / bool / int / str):
 
 Types steer the generator so that most programs evaluate without error:
   'int' 'str' 'bool' 'any' ('list', T) ('rec', ((field, T), ..))
+  ('mixl', R): a HETEROGENEOUS collection - records of type R next to (nested) collections of such records, in any order
+  (what `.name` on a collection has to map over: it dispatches `#operator_.` per element, and the elements are of mixed kinds)
 A scope maps the variables / functions that are visible at a point to their types; besides, the
 generator deliberately reads names that are bound *elsewhere* in the program but not visible here
 (expected: null) - that is what exposes leaks.
@@ -67,7 +69,8 @@ DOC_FIELDS = (('a', 'int'), ('b', 'int'), ('s', 'str'), ('flag', 'bool'), ('xs',
               ('ws', ('list', 'str')), ('items', ('list', REC_ITEM)), ('sub', REC_SUB), ('opt', 'any'),
               ('unit_price', 'int'), ('unitPrice', 'int'), ('a_', 'int'), ('A', 'int'), ('odd', REC_ODD),
               ('odds', ('list', REC_ODD)), ('len', 'int'), ('value', 'int'), ('name', 'str'), ('data', ('list', 'int')),
-              ('host', REC_HOST), ('hosts', ('list', REC_HOST)), ('mix', ('list', 'any')), ('context', 'any'))
+              ('host', REC_HOST), ('hosts', ('list', REC_HOST)), ('mix', ('list', 'any')), ('context', 'any'),
+              ('rows', ('mixl', REC_SUB)), ('groups', ('mixl', REC_ITEM)), ('tree', ('mixl', REC_ODD)))
 # values that are EQUAL for the host language (1 == True == 1.0, 0 == False == 0.0 == -0.0, one dict key, one cache entry)
 # or alike for its truth test ('' / null / [] / {} / 0) although they are different values of the language
 EQUIV = ((1, True, 1.0), (0, False, 0.0), (0, False, 0.0, -0.0), (1, True, 1.0, 1), (None, '', 0, False), (2, 2.0), (1, 1.0),
@@ -145,6 +148,10 @@ def is_rec(t):
     return isinstance(t, tuple) and t[0] == 'rec'
 
 
+def is_mixl(t):
+    return isinstance(t, tuple) and t[0] == 'mixl'
+
+
 # ---------------------------------------------------------------- documents
 
 def gen_value(rng, t, dirty):
@@ -169,13 +176,35 @@ def gen_value(rng, t, dirty):
                 continue
             d[f] = gen_value(rng, ft, dirty)
         return d
+    if is_mixl(t):
+        return gen_mixed(rng, t[1], dirty, 2)
     raise ValueError(t)
 
 
-def gen_doc(rng):
-    """(document as plain Python data with tuples for lists, its type)"""
+def gen_mixed(rng, rec, dirty, depth):
+    """a heterogeneous collection: records next to (nested) collections of records, in any order; `dirty`: now and then a
+    scalar / null element (no member of it: the projection raises when it gets there)"""
+    out = []
+    for _ in range(rng.choice((1, 2, 2, 3, 3, 4))):
+        roll = rng.random()
+        if roll < 0.5 or depth <= 0:
+            out.append(gen_value(rng, rec, dirty))
+        elif roll < 0.92:
+            out.append(gen_mixed(rng, rec, dirty, depth - 1) if rng.random() < 0.5 else
+                       tuple(gen_value(rng, rec, dirty) for _ in range(rng.choice((0, 1, 2, 2)))))
+        elif dirty:
+            out.append(rng.choice((None, 0, 'q')))
+        else:
+            out.append(gen_value(rng, rec, dirty))
+    return tuple(out)
+
+
+def gen_doc(rng, mixed=False):
+    """(document as plain Python data with tuples for lists, its type); `mixed`: also fields holding collections of
+    mixed element kinds, nested three deep (off by default: C08 multiplies every list of a document by up to 40)"""
     k = rng.randint(3, 16)
-    fields = tuple(sorted(rng.sample(DOC_FIELDS, k), key=lambda p: DOC_FIELDS.index(p)))
+    pool = DOC_FIELDS if mixed else tuple(f for f in DOC_FIELDS if not is_mixl(f[1]))
+    fields = tuple(sorted(rng.sample(pool, min(k, len(pool))), key=lambda p: DOC_FIELDS.index(p)))
     t = ('rec', fields)
     dirty = rng.random() < 0.3
     return gen_value(rng, t, dirty), t
@@ -218,6 +247,7 @@ class Gen:
         self.fpool = set()                 # every function name defined somewhere in the program
         self.nfun = 0
         self.salt = rng.randrange(len(EQUIV))
+        self.host_vars = {}                # '$name' -> type: variables the HOST bound somewhere in its context chain
 
     # ------------------------------------------------------------ helpers
     def pick(self, options):
@@ -314,6 +344,12 @@ class Gen:
             return ['list', [self.lit(t[1]) for _ in range(r.choice((0, 1, 2, 3)))]]
         if is_rec(t):
             return ['map', [[['kw', f], self.lit(ft)] for f, ft in t[1]]]
+        if is_mixl(t):
+            one = lambda: self.lit(t[1])                 # noqa: E731
+            shapes = (lambda: [one(), ['list', [one()]]], lambda: [['list', [one()]], one()],
+                      lambda: [one(), ['list', [one(), ['list', [one()]]]], one()], lambda: [['list', []], one()],
+                      lambda: [['list', [['list', [one()]]]], one(), ['list', [one(), one()]]])
+            return ['list', r.choice(shapes)()]
         raise ValueError(t)
 
     def some_type(self, simple=False):
@@ -372,8 +408,21 @@ class Gen:
                      (1, lambda: ['un', 'not', self.expr(r.choice(('bool', 'any', 'int')), sc, d - 1)]),
                      (1, lambda: ['bin', r.choice(('and', 'or')), self.expr('bool', sc, d - 1), self.expr('bool', sc, d - 1)]),
                      (2, lambda: self.with_lambda(r.choice(('any', 'all')), self.some_list(sc, d), 'bool', sc, d))]
+        elif is_mixl(t):
+            opts += [(4, lambda: self.mixed_list(t[1], sc, d)),
+                     (1, lambda: ['method', self.expr(t, sc, d - 1), 'select', [self.var('$1')], []]),
+                     (1, lambda: ['method', self.expr(t, sc, d - 1), 'where', [['lit', True]], []]),
+                     (1, lambda: ['method', self.expr(t, sc, d - 1), r.choice(('take', 'skip')), [['lit', r.choice((0, 1, 5))]], []]),
+                     (1, lambda: ['bin', 'add', self.to_list(self.expr(t, sc, d - 1)), self.to_list(self.expr(('list', t[1]), sc, d - 1))]),
+                     # every element a collection that itself holds a record next to a collection of records
+                     (2, lambda: ['method', self.expr(('list', t[1]), sc, d - 1), 'select',
+                                  [r.choice((lambda: ['list', [self.var('$1'), ['list', [self.var('$1')]]]],
+                                             lambda: ['list', [['list', [self.var('$1')]], self.var('$1')]],
+                                             lambda: ['list', [self.var('$1'), ['list', [self.var('$1'), ['list', [self.var('$1')]]]]]]))()], []])]
         elif t == 'any':
             opts += [(3, lambda: self.expr(self.some_type(), sc, d)),
+                     (1.6, lambda: self.mixed_member(sc, d)),
+                     (0.9, lambda: self.to_dict(sc, d)),
                      (2, lambda: self.oos_read(sc)),
                      (0.4, lambda: self.oos_call(sc, d)),
                      (1, lambda: ['bin', r.choice(('and', 'or')), self.expr('any', sc, d - 1), self.expr('any', sc, d - 1)])]
@@ -409,6 +458,11 @@ class Gen:
         r = self.rng
         if t == 'any' and r.random() < 0.35:
             return self.oos_read(sc)
+        if self.host_vars and r.random() < 0.3:
+            # a variable of the host's chain, read from wherever the program is right now (a local binding may shadow it)
+            ps = self.paths(Scope({n: ty for n, ty in self.host_vars.items() if sc.vars.get(n) == ty}, {}), t)
+            if ps:
+                return r.choice(ps)
         for name in sc.fresh:
             if name in sc.vars and r.random() < 0.4:
                 ps = self.paths(Scope({name: sc.vars[name]}, {}), t)
@@ -443,6 +497,55 @@ class Gen:
         if name in sc.funcs:
             return self.user_call((name, sc.funcs[name]), sc, d)
         return ['call', name, [self.expr('int', sc, d - 1) for _ in range(r.choice((0, 1)))], []]
+
+    def mixed_list(self, rec, sc, d):
+        """a list literal whose elements are of MIXED kinds: records, collections of records (list literals, document
+        paths, lazy sequences), collections of collections - in any order"""
+        r = self.rng
+        one = lambda: self.expr(rec, sc, d - 1)                      # noqa: E731
+        many = lambda: self.expr(('list', rec), sc, d - 1)           # noqa: E731
+        deep = lambda: ['list', [one(), ['list', [one()]]]]          # noqa: E731
+        n = r.choice((2, 2, 3, 3, 4))
+        kinds = [r.choice((one, one, many, many, deep)) for _ in range(n)]
+        if one not in kinds:
+            kinds[r.randrange(n)] = one
+        if all(k is one for k in kinds):
+            kinds[r.randrange(n)] = many
+        els = [k() for k in kinds]
+        if r.random() < 0.06:
+            els.insert(r.randrange(len(els) + 1), self.lit(r.choice(('int', 'any'))))     # no member: raises when reached
+        return ['list', els]
+
+    def to_dict(self, sc, d):
+        """`xs.toDict(key lambda [, value lambda])`: two lambdas of one call, each depending on ITS element"""
+        r = self.rng
+        e, el = self.some_list(sc, d)
+        lsc = self.lam_scope(sc, el)
+        key = self.expr(r.choice(('int', 'str')), lsc, d - 1) if r.random() < 0.6 else self.var('$1')
+        if is_rec(el):
+            key = ['member', self.var('$1'), r.choice([f for f, ft in el[1] if ft in ('int', 'str')] or ['n'])]
+        args = [key]
+        if r.random() < 0.75:
+            args.append(self.expr(self.some_type(True), lsc, d - 1) if r.random() < 0.7 else ['list', [self.var('$1'), key]])
+        return ['method', e, 'toDict', args, []]
+
+    def mixed_member(self, sc, d):
+        """`.name` on a heterogeneous collection (alone, next to the `select($.name)` it is documented to equal, consumed)"""
+        r = self.rng
+        rec = r.choice((REC_SUB, REC_ITEM, REC_ODD, REC_HOST))
+        src = self.expr(('mixl', rec), sc, d - 1)
+        f = r.choice([f for f, _ in rec[1]]) if r.random() < 0.93 else self.missing_key()
+        m = ['member', src, f]
+        roll = r.random()
+        if roll < 0.5:
+            return m
+        if roll < 0.7:
+            return ['list', [m, ['method', src, 'select', [['member', self.var('$1'), f]], []]]]
+        if roll < 0.8:
+            return ['method', m, 'toList', [], []]
+        if roll < 0.9:
+            return ['method', m, 'len', [], []]
+        return ['index', ['method', m, 'toList', [], []], [['lit', r.choice((0, 1))]]]
 
     def to_list(self, e):
         """operands of list `+` must be sequences, not iterators"""
@@ -670,6 +773,42 @@ class Gen:
             lambda: ['map', [[['kw', 'a'], p], [['kw', 'b'], ['list', [lazy]]]]],
         ))()
 
+    def host_scenario(self, sc, d):
+        """a variable the HOST bound (at some depth of its chain) read from inside a lambda, a let chain, a def body, a
+        callee that shadows it - next to a plain read"""
+        r = self.rng
+        e = lambda t, s=sc, dd=d - 1: self.expr(t, s, dd)           # noqa: E731
+        name = r.choice(sorted(self.host_vars))
+        ty = self.host_vars[name]
+        x = ['var', name]
+        xs = e(('list', 'int'))
+        other = self.new_name()
+        fn = self.fun_name()
+        k = r.randrange(9)
+        if k == 0:
+            return ['list', [x, ['method', xs, 'select', [['list', [x, self.var('$1')]]], []], ['var', '$']]]
+        if k == 1:
+            return ['arrow', ['call', 'let', [], [[['kw', other], e('int')]]], ['list', [x, ['var', '$' + other], ['var', '$1']]]]
+        if k == 2:
+            return ['arrow', ['call', 'def', [['kw', fn], ['list', [x, self.var('$1')]]], []],
+                    ['list', [['call', fn, [e('int')], []], ['method', xs, 'select', [['call', fn, [self.var('$1')], []]], []]]]]
+        if k == 3 and is_keyword(name[1:]):     # shadowed inside, restored outside
+            return ['list', [['arrow', ['call', 'let', [], [[['kw', name[1:]], e('str')]]], x], x,
+                             ['method', xs, 'select', [['arrow', ['call', 'let', [], [[['kw', name[1:]], self.var('$1')]]], x]], []], x]]
+        if k == 4:
+            return ['arrow', ['call', 'with', [e('int'), e('str')], []], ['list', [x, ['var', '$1'], ['var', '$2']]]]
+        if k == 5 and is_keyword(name[1:]):     # lexical closure over a host variable, the caller rebinds the name
+            return ['arrow', ['call', 'def', [['kw', fn], ['arrow', ['call', 'let', [], [[['kw', other], x]]], ['list', [['var', '$' + other], x]]]], []],
+                    ['arrow', ['call', 'let', [], [[['kw', name[1:]], e('int')]]], ['list', [['call', fn, [], []], x]]]]
+        if k == 6 and ty == 'int':
+            return ['method', xs, 'where', [['bin', r.choice(('gt', 'le', 'ne')), self.var('$1'), x]], []]
+        if k == 7:
+            rel = relatives(name[1:]) if is_keyword(name[1:]) else []
+            return ['list', [x, ['var', '$' + r.choice(rel)] if rel else ['var', '$nope'], ['var', '$'], ['var', '$1']]]
+        ps = self.paths(Scope({name: ty}, {}), 'any')
+        return ['map', [[['kw', 'direct'], x], [['kw', 'nested'], ['method', ['list', [['lit', 1]]], 'select',
+                                                              [['method', ['list', [['lit', 2]]], 'select', [r.choice(ps or [x])], []]], []]]]]
+
     # ------------------------------------------------------------ scenario templates
     def scenario(self, sc, d):
         """shapes that put two scoping constructs into a particular relation, with random parts"""
@@ -828,8 +967,8 @@ class Gen:
         if k == 8:      # outer variable inside a lambda, `$` rebinding
             return ['arrow', ['call', 'let', [], [[['kw', nm], e('int')]]],
                     ['method', xs, 'select', [['list', [x, self.var('$1')]]], []]]
-        if k == 9:      # member access maps over a collection
-            items = e(('list', REC_ITEM))
+        if k == 9:      # member access maps over a collection (homogeneous, or of mixed element kinds)
+            items = e(('list', REC_ITEM)) if r.random() < 0.5 else e(('mixl', REC_ITEM))
             f = r.choice(('n', 'v'))
             return ['list', [['member', items, f], ['method', items, 'select', [['member', self.var('$1'), f]], []]]]
         if k == 10:     # unpack then lambda
@@ -853,13 +992,135 @@ class Gen:
                          ['call', 'f', [], []] if r.random() < 0.5 else ['call', 'len', [['list', [x]]], []]]]
 
 
-def program(rng, max_depth):
+# ---------------------------------------------------------------- how the data enters: the host's own context chain
+#
+# A host does not only call `statement.evaluate(data=doc, context=child)`.  It may bind the document with
+# `yaql.create_context(data=doc)` (then `$` lives in the ROOT of the chain, below the layers of the standard library), it
+# may hand its own context - already holding variables - to `yaql.create_context(context=..)` (those variables live below
+# the library too), it may stack further contexts with variables on top of the library context, bind `$` itself in any of
+# them, and evaluate on the top context or on a child.  Whatever it does, "named variables resolve through the enclosing
+# scopes": a variable bound at ANY depth of the host's chain is visible from every scope of the program.
+ENTRIES = ('evaluate-child', 'evaluate-child', 'evaluate-top', 'create_context', 'create_context', 'create_context-child',
+           'host-binds-$')
+HOST_VAR_NAMES = ('env', 'limit', 'region', 'cfg', 'user', 'threshold', 'n', 'top')
+
+
+def gen_host_env(rng, g=None):
+    """{'layers': [[name, type, value]..] per context from the ROOT upwards, 'entry': how `$` gets bound, 'at': the number
+    of layers below the binding of `$`} - layer 0 is the context the host passes to `yaql.create_context(context=..)`
+    (possibly without variables), the others are stacked on top of the library context"""
+    n_layers = rng.choice((1, 2, 2, 3, 3, 4))
+    layers, seen = [], []
+    for i in range(n_layers):
+        layer = []
+        for _ in range(rng.choice((0, 1, 1, 2)) if i else rng.choice((0, 0, 1, 2))):
+            roll = rng.random()
+            if seen and roll < 0.3:
+                name, ty = rng.choice(seen)                       # bound again higher up: the upper binding shadows
+                if rng.random() < 0.3:
+                    ty = rng.choice(('int', 'str'))
+            else:
+                name = (rng.choice(HOST_VAR_NAMES) if roll < 0.7 else
+                        rng.choice(ODD_NAMES) if roll < 0.85 else rng.choice(HOST_NAMES[:38]))
+                ty = rng.choice(('int', 'int', 'str', 'bool', ('list', 'int'), REC_SUB, ('list', REC_ITEM), 'any',
+                                 ('mixl', REC_SUB)))
+            if not is_keyword(name) or name in [x[0] for x in layer]:
+                continue
+            layer.append([name, ty, gen_value(rng, ty, False)])
+            seen.append((name, ty))
+        layers.append(layer)
+    entry = rng.choice(ENTRIES)
+    at = 0 if entry.startswith('create_context') else len(layers)
+    if entry == 'host-binds-$':
+        at = rng.randrange(1, len(layers) + 1)      # `$` bound by the host in layer at - 1
+    return {'layers': layers, 'entry': entry, 'at': at}
+
+
+def host_scope(env):
+    """variable -> type of what the program sees of the host's chain (the topmost binding of a name)"""
+    out = {}
+    for layer in env['layers']:
+        for name, ty, _ in layer:
+            out['$' + name] = ty
+    return out
+
+
+def env_plain(env):
+    """the wire / replay form: values only"""
+    if env is None:
+        return None
+    return {'layers': [[[n, v] for n, _, v in layer] for layer in env['layers']], 'entry': env['entry'], 'at': env['at']}
+
+
+# ---------------------------------------------------------------- arguments passed by keyword
+#
+# `name => value` passes an argument to the parameter of that name; the names are the ones the naming convention of the
+# context gives the parameters (`keySelector` for the Python parameter `key_selector`).  HOW an argument is passed changes
+# nothing about what it means - in particular a lambda passed by keyword is still a lambda: evaluated per element, `$` bound
+# to the element.  (generator steering only: the references have their own tables)
+METHOD_PARAMS = {
+    'select': ('selector',), 'where': ('predicate',), 'selectMany': ('selector',), 'orderBy': ('selector',),
+    'orderByDescending': ('selector',), 'takeWhile': ('predicate',), 'skipWhile': ('predicate',), 'indexWhere': ('predicate',),
+    'toDict': ('keySelector', 'valueSelector'), 'aggregate': ('selector', 'seed'), 'sum': ('initial',), 'first': ('default',),
+    'take': ('count',), 'skip': ('count',), 'any': ('predicate',), 'all': ('predicate',),
+}
+
+
+def kwify(e, rng, p=0.22):
+    """the program with some arguments of builtin methods passed BY KEYWORD: the trailing arguments from a random position
+    on, now and then in another order, now and then under a name that is NOT the parameter's (the Python spelling
+    `key_selector`, a trailing underscore, another case, a neighbour's name): expected NoMatchingMethodException"""
+    t = e[0]
+    if t in ('lit', 'kw', 'var'):
+        return e
+    out = list(e)
+    for c, path in children(e):
+        out = replace_at(out, path, kwify(c, rng, p))
+    if t == 'method' and not out[4] and out[3] and out[2] in METHOD_PARAMS and len(out[3]) <= len(METHOD_PARAMS[out[2]]) \
+            and rng.random() < (p if len(METHOD_PARAMS[out[2]]) == 1 else 2 * p):
+        names = METHOD_PARAMS[out[2]]
+        k = rng.randrange(len(out[3]))                    # args[k:] go by keyword
+        kw = [[['kw', names[i]], a] for i, a in enumerate(out[3]) if i >= k]
+        if len(kw) > 1 and rng.random() < 0.4:
+            kw.reverse()
+        if rng.random() < 0.12:
+            i = rng.randrange(len(kw))
+            good = kw[i][0][1]
+            wrong = [w for w in (to_snake(good), good + '_', good.capitalize(), good.lower(), good.upper(), good[:-1],
+                                 'selector' if good != 'selector' else 'predicate', 'keySelector' if out[2] != 'toDict' else 'key')
+                     if w != good and is_keyword(w) and w not in names]
+            if wrong:
+                kw[i] = [['kw', rng.choice(wrong)], kw[i][1]]
+        out = ['method', out[1], out[2], out[3][:k], kw]
+    return out
+
+
+def program_env(rng, max_depth, p_env=0.3):
+    """-> (ast, doc, result type, env): a program that also reads variables the HOST bound in its context chain and passes
+    arguments of builtin methods by keyword; env is None for the plain entry `evaluate(data=doc, context=child of the
+    library context)`"""
+    if rng.random() >= p_env:
+        ast, doc, t = program(rng, max_depth, None, True)
+        return kwify(ast, rng), doc, t, None
+    env = gen_host_env(rng)
+    ast, doc, t = program(rng, max_depth, host_scope(env), True)
+    return kwify(ast, rng), doc, t, env_plain(env)
+
+
+def program(rng, max_depth, host_vars=None, mixed_docs=False):
     """-> (ast, doc, result type)"""
-    doc, dt = gen_doc(rng)
+    doc, dt = gen_doc(rng, mixed_docs)
     g = Gen(rng, max_depth)
     sc = Scope({'$1': dt}, {})
+    if host_vars:
+        sc = sc.bind(host_vars)
+        sc.fresh = ()
+        g.pool.update(host_vars)
+        g.host_vars = dict(host_vars)
     d = rng.randint(2, max_depth)
     roll = rng.random()
+    if g.host_vars and rng.random() < 0.35:
+        return g.host_scenario(sc, min(d, 3)), doc, 'any'
     if roll < 0.30:
         return g.scenario(sc, min(d, 3)), doc, 'any'
     if roll < 0.50:
